@@ -9,7 +9,7 @@ From PG Require Import Base CacheWriter CacheReader CacheBytesProofs GuardFormat
 From PG.Gen Require Extracted.
 
 Theorem C10_layout_or_version_bump :
-  Extracted.cache_version <> pinned_version \/ current_layout = pinned_layout.
+  Extracted.cache_version <> pinned_version \/ layout_agrees.
 Proof. exact guard_layout_or_version_bump. Qed.
 
 Theorem C10_other_version_rejected : forall buf hdr rest,
